@@ -210,7 +210,7 @@ pub enum Input {
     /// C12: same abstract class sequence through different characters
     Meta12 { enc: Enc, dir: Dir, text_a: Vec<u32>, ds_a: DsSpec, text_b: Vec<u32>, ds_b: DsSpec },
     /// C13: replace the content of a matched isolate
-    Meta13 { dir: Dir, prefix: Vec<u32>, init: u32, c1: Vec<u32>, c2: Vec<u32>, suffix: Vec<u32> },
+    Meta13 { enc: Enc, dir: Dir, prefix: Vec<u32>, init: u32, c1: Vec<u32>, c2: Vec<u32>, suffix: Vec<u32> },
     /// C07 / C05 / C06 at a size the Model cannot replay: `(a א)×n` as UTF-16 is one LTR paragraph of 2n runs whose
     /// reordering is the text itself; a recursion per run or per character overflows the stack (an abort, which no
     /// catch_unwind sees: the harness process dies and the check reports the broken pipeline)
@@ -491,6 +491,7 @@ pub fn parse_line(line: &str) -> Option<(String, String, Input)> {
             ds_b: parse_ds(key(&f, "DSB")).unwrap(),
         },
         "meta13" => Input::Meta13 {
+            enc: parse_enc(f.get("enc").map(|s| s.as_str()).unwrap_or("8")),
             dir: parse_dir(key(&f, "dir")),
             prefix: parse_hexlist(key(&f, "PRE")),
             init: u32::from_str_radix(key(&f, "INIT"), 16).unwrap(),
@@ -1746,10 +1747,12 @@ pub fn run(id: &str, mode: &str, input: &Input) -> String {
             };
             format!("{} => A={} B={}", q, per_char(text_a, ds_a), per_char(text_b, ds_b))
         }
-        Input::Meta13 { dir, prefix, init, c1, c2, suffix } => {
+        Input::Meta13 { enc, dir, prefix, init, c1, c2, suffix } => {
+            // enc=16: every list is a list of scalar values and LONE surrogates (each one code unit; the generator never
+            // puts a lone low surrogate after a lone high one), encoded element by element
             let q = format!(
-                "{} meta13 dir={} PRE={} INIT={:X} C1={} C2={} SUF={}",
-                head, dir.tag(), hexlist(prefix), init, hexlist(c1), hexlist(c2), hexlist(suffix)
+                "{} meta13 enc={} dir={} PRE={} INIT={:X} C1={} C2={} SUF={}",
+                head, enc_tag(*enc), dir.tag(), hexlist(prefix), init, hexlist(c1), hexlist(c2), hexlist(suffix)
             );
             let build = |content: &[u32]| -> Vec<u32> {
                 let mut t = prefix.clone();
@@ -1761,14 +1764,15 @@ pub fn run(id: &str, mode: &str, input: &Input) -> String {
             };
             let outside = |content: &[u32]| -> String {
                 let t = build(content);
-                match analyse(Enc::U8, Api::B, *dir, &t, &None) {
+                let units16: Vec<u32> = t.iter().flat_map(|&c| if c >= 0x10000 { vec![0xD800 + ((c - 0x10000) >> 10), 0xDC00 + ((c - 0x10000) & 0x3FF)] } else { vec![c] }).collect();
+                match analyse(*enc, Api::B, *dir, if *enc == Enc::U16 { &units16 } else { &t }, &None) {
                     None => "PANIC".into(),
                     Some(a) => {
                         let mut starts = vec![];
                         let mut pos = 0usize;
                         for &c in &t {
                             starts.push(pos);
-                            pos += char::from_u32(c).unwrap().len_utf8();
+                            pos += if *enc == Enc::U16 { if c >= 0x10000 { 2 } else { 1 } } else { char::from_u32(c).unwrap().len_utf8() };
                         }
                         let n1 = prefix.len() + 1;
                         let n2 = n1 + content.len();
